@@ -312,3 +312,28 @@ Proof.
   - intros h Hh. apply tags_sound. apply (H2 h Hh).
   - apply qnear_sound. exact H3.
 Qed.
+
+(* ------------------------------------------------------------------ requested geometry *)
+Definition RequestConf (r : request) : Prop :=
+  (forall m, In m (rq_meas r) -> QNear (qsum (fst m)) (snd m)) /\
+  Forall2 (fun a b => QNear (fst a) (fst b) /\ QNear (snd a) (snd b)) (rq_span r) (rq_box r) /\
+  rq_ngrids r = rq_nfracs r.
+
+Lemma span_sound : forall a b, span_ok a b = true ->
+  Forall2 (fun a b => QNear (fst a) (fst b) /\ QNear (snd a) (snd b)) a b.
+Proof.
+  induction a as [|x a IH]; intros [|y b] H; cbn in H; try discriminate; [constructor|].
+  apply andb_true_iff in H. destruct H as [H H3]. apply andb_true_iff in H. destruct H as [H1 H2].
+  constructor; [split; apply qnear_sound; assumption|apply IH; exact H3].
+Qed.
+
+Lemma conform_req_sound : forall d r, conform_req d r = true -> Conforming d /\ RequestConf r.
+Proof.
+  intros d r H. unfold conform_req in H. apply andb_true_iff in H. destruct H as [H1 H2].
+  split; [apply conform_sound; exact H1|]. unfold request_ok in H2.
+  apply andb_true_iff in H2. destruct H2 as [H2 N]. apply andb_true_iff in H2. destruct H2 as [M Sp].
+  split; [|split].
+  - intros m Hm. rewrite forallb_forall in M. apply qnear_sound. apply M. exact Hm.
+  - apply span_sound. exact Sp.
+  - apply Nat.eqb_eq. exact N.
+Qed.
